@@ -43,5 +43,16 @@ CLAIMS = {
     note="Trusted: z3, the DSE shim (object arrays of (real, isnan)), np.nanargmax/nanargmin/isnan shims. Row-wise argument: proved for a generic single row. "
          "Floats are reals+NaN. Not covered: DR_Results/pandas plumbing, SRS envelopes, form_extreme/merge bookkeeping beyond the extrema kernel, reports.",
     technique="contracts (representation invariant over an abstract multiset, frame) checked on every path of the real function by dynamic symbolic execution + z3"),
+ "C18": dict(
+    text="Proof by evaluation of the constant mkusetmask table (base sets disjoint, every superset's base-set content equals the documented union, "
+         "'a+b' expressions) lifted by z3 bit-vector queries to every consistent USET word; proof by dynamic symbolic execution (all paths, symbolic "
+         "32-bit words / integers, z3) that mksetpv returns a vector of the major set's length selecting exactly the minor DOF in table order and refuses "
+         "iff the minor set is not contained, that mkdofpv (NumPy-table form: the argsort/searchsorted/re-check core) returns the positions of exactly the "
+         "requested present pairs in request order and raises under strict iff one is missing, and that index2slice(pv) selects x[pv] for every x long "
+         "enough (lengths 0..4). Hash/byte-view based helpers (find_duplicates, flippv, index2bool, mat_intersect, list_intersect, merge_lists) and "
+         "expanddof (all 63 component codes) are checked against their defining equations on bounded inputs (labelled bounded).",
+    note="Trusted: z3, the DSE shim; NumPy's argsort/searchsorted/nonzero run for real on object arrays. Array shapes are fixed per configuration (<= 4 rows), "
+         "values fully symbolic. pandas plumbing assumed to hand over the stored columns. Not covered: make_uset/addgrid, find_subseq, larger shapes.",
+    technique="contracts checked on every path of the real functions by dynamic symbolic execution (z3 Int/BitVec); constant-table evaluation; bounded defining-equation checks"),
 }
 NOT_APPLICABLE = {}
